@@ -47,6 +47,7 @@ EXHAUSTIVE = {'quick': ['single non-pass behaviour x hook x position x plugin li
 LOG: List[Tuple[Any, ...]] = []
 TABLE: Dict[Tuple[int, str], Tuple[str, int]] = {}      # (plugin idx, hook) -> (behaviour, apply on n-th call of that hook; 0 = always)
 MARK = [b'q', b'w', b'e']
+REJECT: Dict[str, int] = {'pad': 0}       # rejection bodies are padded to this many bytes (output larger than one flush)
 
 
 def _markers(req: Optional[HttpParser]) -> Tuple[str, ...]:
@@ -99,7 +100,8 @@ class _Rec(HttpProxyBasePlugin):
         LOG.append((self.IDX, hook, arg, b, _markers(ret) if ret is not None else None))
         if b == 'reject':
             raise HttpRequestRejected(status_code=470 + self.IDX, reason=b'Rejected by P%d' % self.IDX,
-                                      headers={b'X-Rejected-By': b'P%d' % self.IDX}, body=b'rejected-by-P%d-at-%s' % (self.IDX, hook.encode()))
+                                      headers={b'X-Rejected-By': b'P%d' % self.IDX},
+                                      body=(b'rejected-by-P%d-at-%s' % (self.IDX, hook.encode())).ljust(REJECT['pad'], b'.'))
         return ret
 
     def before_upstream_connection(self, request: HttpParser) -> Optional[HttpParser]:
@@ -163,6 +165,7 @@ def run_case(case: Dict[str, Any]) -> Dict[str, Any]:
     table = {(int(k.split(':')[0]), k.split(':')[1]): (v[0], v[1]) for k, v in case['table'].items()}
     TABLE.clear()
     TABLE.update(table)
+    REJECT['pad'] = case.get('reject_pad', 0)
     del LOG[:]
     shim.S.reset()
     flags = flags_for(order)
@@ -308,7 +311,7 @@ def run_case(case: Dict[str, Any]) -> Dict[str, Any]:
         rej = buc_reject or hcr_reject
         if rej is not None and first_complete:
             idx = rej[0]
-            want_body = b'rejected-by-P%d-at-%s' % (idx, rej[1].encode())
+            want_body = (b'rejected-by-P%d-at-%s' % (idx, rej[1].encode())).ljust(REJECT['pad'], b'.')
             # the rejection is the last thing the client reads (earlier output may have been altered by chunk hooks)
             stream = bytes(client.rx)
             at = stream.rfind(b'HTTP/1.1 %d ' % (470 + idx))
@@ -471,6 +474,7 @@ def cases(tier: str, seed: int):
                 for ending in endings:
                     i += 1
                     yield {'seed': seed, 'i': i, 'order': order, 'table': {'%d:%s' % (order[pos], hook): [beh, nth]}, 'ending': ending,
+                           'reject_pad': rng.choice([0, 0, 65400, 65536, 70000, 300000]) if beh == 'reject' else 0,
                            'followups': 3 if hook == 'handle_client_request' and nth == 2 else rng.choice([0, 1, 2]),
                            'resp_cuts': rng.choice([0, 0, 3]), 'mode': rng.choice(['local', 'local', 'remote'])}
     # every abnormal ending with the all-pass and a few single tables (quick tier too)
@@ -488,6 +492,7 @@ def cases(tier: str, seed: int):
             tb['%d:%s' % (rng.choice(order), hook)] = [beh, nth]
         i += 1
         yield {'seed': seed, 'i': i, 'order': order, 'table': tb, 'ending': rng.choice(ENDINGS_ALL), 'followups': rng.choice([0, 1, 3]),
+               'reject_pad': rng.choice([0, 0, 70000]),
                'resp_cuts': rng.choice([0, 2, 5]), 'mode': rng.choice(['local', 'local', 'remote'])}
 
 
